@@ -2,6 +2,7 @@ import Juniper.Proofs.MergeChans
 import Juniper.Proofs.Replicate
 import Juniper.Proofs.StreamMergeClose
 import Juniper.Proofs.StreamMergeResults
+import Juniper.Proofs.StreamMergeProgress
 /-!
 # C12 — Merge / Replicate move every value exactly once and finish when their inputs do
 
@@ -219,16 +220,20 @@ input `i` — never the error of the merge's own cancelled context —, that inp
 (`errLog`), and it is the error of the goroutine whose CAS on `closeOnce` succeeded, i.e. of the first
 goroutine to reach the CAS with an error (`winner` is written once); hence all errors reported are
 the same; (2) once any input has returned an error the consumer is never told the normal end;
-(3) once the sender is closed with error `e`, a pending `Next` can always return, and returns `e`. -/
+(3) once the sender is closed with error `e`, a pending `Next` can always return, and returns `e`;
+(4) once any input has returned an error, a consumer waiting in `Next` is never stuck: some step
+that needs no further input (the CAS, a statement of the winner, or the `senderDone` arm of `Next`)
+is enabled — the error cannot be followed by silence. -/
 theorem streamMerge_first_error (k : Nat) (s : St V) (h : Reach (init V k) s) :
     (∀ e, Res.err e ∈ s.results → ∃ i x, e = .inj x ∧ s.winner = some (i, .inj x) ∧ (i, x) ∈ s.errLog) ∧
     (s.errLog ≠ [] → Res.endd ∉ s.results) ∧
     (∀ e, s.senderErr = some e → 0 < s.senderCloses → ∀ live, s.cpc = .inNext live →
-      ∃ s', step s .cEnd = some s' ∧ s'.results = s.results ++ [.err e]) := by
+      ∃ s', step s .cEnd = some s' ∧ s'.results = s.results ++ [.err e]) ∧
+    (s.errLog ≠ [] → ∀ live, s.cpc = .inNext live → ∃ l, l ∈ internalLabels s ∧ ∃ s', step s l = some s') := by
   have ha := reach_invA h
   have hc := reach_invC h
   have hf := reach_invF h
-  refine ⟨?_, ?_, ?_⟩
+  refine ⟨?_, ?_, ?_, fun herr live hcp => error_never_stuck ha hc hf (reach_invL h) herr hcp⟩
   · intro e he
     obtain ⟨i, x, h1, h2⟩ := hf.r1 e he
     exact ⟨i, x, h1, h2, hc.w4 i x h2⟩
@@ -258,7 +263,7 @@ example : ∃ s : St (Option Int), Reach (init (Option Int) 2) s ∧
       .cCall true, .cEnd, .cCall false, .cEnd] .refl rfl, by decide⟩
 
 /-- **The merged stream ends only when every input has ended and everything was delivered** (the
-"only if" half of `streamMerge_end_iff_all_done`; the "if" half is `streamMerge_end_when_all_ended`).
+"only if" half of `streamMerge_end_iff_all_done`).
 In every reachable state in which the consumer has been told the normal end: every input's `Next`
 returned `End` (no goroutine left its loop for another reason), no input ever returned an error, and
 the items the consumer received from input `i` are exactly the items `in[i].Next` returned, in
@@ -293,6 +298,36 @@ theorem streamMerge_end_only_if_all_done (k : Nat) (s : St V) (h : Reach (init V
   · cases hl : s.errLog with
     | nil => rfl
     | cons p rest => exact absurd hend ((streamMerge_first_error k s h).2.1 (by rw [hl]; simp))
+
+/-- **The merged stream ends exactly when all inputs are exhausted and everything has been
+delivered.** Only if: `streamMerge_end_only_if_all_done`. If: in every reachable state in which every
+input's `Next` has returned `End` and the consumer is waiting in `Next` with a live context,
+(1) some step that needs no further input is enabled; (2) every enabled step either hands the normal
+end to that `Next`, or keeps the situation and strictly decreases the measure `nu2` (no item is left
+to deliver: no goroutine is in its loop any more); hence (3) some run of steps needing no further
+input delivers the normal end. -/
+theorem streamMerge_end_iff_all_done (k : Nat) (s : St V) (h : Reach (init V k) s) :
+    (Res.endd ∈ s.results →
+      (∀ i g, s.gs[i]? = some g → g.why = some .ended ∧ proj i s.out = g.items) ∧ s.errLog = []) ∧
+    (AllEnded s → s.cpc = .inNext true →
+      (∃ l, l ∈ internalLabels s ∧ ∃ s', step s l = some s') ∧
+      (∀ l s', step s l = some s' → AllEnded s' ∧
+        ((s'.cpc = .inNext true ∧ s'.results = s.results ∧ nu2 s' < nu2 s) ∨ s'.results = s.results ++ [.endd])) ∧
+      (∃ ls s', run s ls = some s' ∧ InternalRun s ls ∧ s'.results = s.results ++ [.endd])) := by
+  refine ⟨streamMerge_end_only_if_all_done k s h, ?_⟩
+  intro hall hcp
+  have ha := reach_invA h
+  have hc := reach_invC h
+  have hl := reach_invL h
+  obtain ⟨h1, h2⟩ := end_progress ha hc hl hall hcp
+  exact ⟨h1, h2, end_delivered (nu2 s) s ha hc hl hall hcp (Nat.le_refl _)⟩
+
+/-- three inputs end one after the other, two items are delivered in between, then the end -/
+example : ∃ s : St (Option Int), Reach (init (Option Int) 3) s ∧
+    s.gs.map (·.why) = [some .ended, some .ended, some .ended] ∧ s.cpc = .inNext true ∧
+    s.results = [.item 2 (some 1), .item 0 (some 2)] :=
+  ⟨_, reach_of_run [.inItem 2 (some 1), .inEnd 1, .cCall true, .sendOk 2, .inItem 0 (some 2), .inEnd 2, .cCall true,
+      .sendOk 0, .inEnd 0, .exitStep 1, .exitStep 1, .cCall true] .refl rfl, by decide⟩
 
 end streamMerge
 
